@@ -149,10 +149,14 @@ class PortRouter(kernel.Actor):
         return self.children[0].on_datagram(src, dst, data)
 
 
-def _new_party(H, role, share_with=None):
+def _new_party(H, role, share_with=None, ip_override=None):
     rng = H.rng
     v6 = H.cfg["v6"] and rng.random() < 0.5
-    if share_with is not None:
+    if ip_override is not None:
+        ip = ip_override
+        v6 = ":" in ip
+        H.natt += 1
+    elif share_with is not None:
         ip = share_with.mc.ip
         v6 = ":" in ip
         H.nleg += 1
@@ -449,6 +453,16 @@ def _pick_target(H):
 def _attacker(H, owner, want_foreign):
     if owner is not None and not want_foreign:
         return owner, "owner"
+    if owner is not None and ":" not in owner.mc.ip and H.rng.random() < 0.15:
+        # somebody in the other address family whose address ends in the very 32 bits of the owner's IPv4 address
+        # (2001:db8:1:2::c633:6409 against 198.51.100.9): another host altogether
+        b = socket.inet_aton(owner.mc.ip)
+        twin = H.rng.choice(["2001:db8:1:2::%x:%x", "fd53::%x:%x", "fd00:1::ffff:%x:%x"]) % ((b[0] << 8) | b[1], (b[2] << 8) | b[3])
+        for p in H.parties:
+            if p.mc.ip == twin:
+                return p, "foreign"
+        if twin not in H.k.actors:
+            return _new_party(H, "attacker", ip_override=twin), "foreign"
     c = [p for p in H.parties if p.role == "attacker"]
     if c and H.rng.random() < 0.7:
         a = H.rng.choice(c)
